@@ -9,7 +9,7 @@ Definition op_of_mpc (pc : mpc) : nat :=
   | MPlayAcq _ | MCtlAcq _ _ | MCloseAcqH | MCloseLoopAcq => 0
   | MPlayRaiseRel | MPlayRel | MCtlRel _ _ | MCloseRelH2 | MCloseBreakRel | MCloseLoopRel _
   | MCloseRelH | MCloseRelHFail => 1
-  | MPlayGoSet _ | MResumeSet _ | MStopSet _ _ => 2
+  | MPlayGoSet _ | MResumeSet _ _ | MStopSet _ _ => 2
   | MPauseClear _ => 3
   | MPlayHaltInit _ | MStopHalt _ _ => 7
   | MCloseGet => 8
@@ -18,7 +18,8 @@ Definition op_of_mpc (pc : mpc) : nat :=
   | MCloseTerm => 17
   | MCloseAssert => 18
   | MPlayStart _ => 19
-  | MCloseJoin _ => 20
+  | MCloseJoin _ | MCloseJoinAll _ => 20
+  | MPlayPrune _ _ _ => 21
   | MDone => 99
   end.
 Definition op_of_ppc (pc : ppc) : nat :=
@@ -46,7 +47,7 @@ Record fplayer := FP { f_status : nat;   (* 0 constructed, 1 running, 2 finished
                        f_halting : bool; f_go : bool; f_tlock : bool; f_open : bool;
                        f_written : list chunk }.
 Record final := FS { f_players : list fplayer; f_finished : bool; f_hlock : bool; f_mlock : bool;
-                     f_threads : list nat; f_terminated : nat;
+                     f_threads : list nat; f_started : list nat; f_terminated : nat;
                      f_pending : list nat  (* per started thread: op code, 99 = none *) }.
 Record scase := SC { c_wait : bool; c_script : list cmd;
                      c_steps : list (nat * nat * list nat);   (* chosen tid, its op, enabled set *)
@@ -70,7 +71,7 @@ Definition status_of_pc (pc : ppc) : nat := match pc with PNew => 0 | PDone => 2
 Definition final_of (s : state) : final :=
   FS (map (fun p => FP (status_of_pc (ppc_ p)) (phalting p) (pgo p) (is_some (ptlock p)) (popen p) (pwritten p))
           (splayers s))
-     (sfinished s) (is_some (shlock s)) (is_some (smlock s)) (sthreads s) (sterminated s)
+     (sfinished s) (is_some (shlock s)) (is_some (smlock s)) (sthreads s) (sstarted s) (sterminated s)
      (op_of_mpc (smpc s) ::
       map (fun p => op_of_ppc (ppc_ p)) (filter (fun p => negb (Nat.eqb (status_of_pc (ppc_ p)) 0)) (splayers s))).
 
@@ -80,7 +81,7 @@ Definition fplayer_eqb (a b : fplayer) : bool :=
 Definition final_eqb (a b : final) : bool :=
   list_eqb fplayer_eqb (f_players a) (f_players b) && Bool.eqb (f_finished a) (f_finished b)
   && Bool.eqb (f_hlock a) (f_hlock b) && Bool.eqb (f_mlock a) (f_mlock b)
-  && nats_eqb (f_threads a) (f_threads b) && Nat.eqb (f_terminated a) (f_terminated b)
+  && nats_eqb (f_threads a) (f_threads b) && nats_eqb (f_started a) (f_started b) && Nat.eqb (f_terminated a) (f_terminated b)
   && nats_eqb (f_pending a) (f_pending b).
 
 Definition flags_eqb (a b : list (bool * bool)) : bool :=
